@@ -331,6 +331,8 @@ pub fn case_hugeslice(va: &dyn VariantApi, big: &[u8], pre: usize, len: usize, r
 struct ZeroReader {
     left: u64,
     cut: u64,
+    /// report this hard error instead of end of file once everything was delivered
+    fail_at_end: bool,
 }
 impl std::io::Read for ZeroReader {
     fn read(&mut self, buf: &mut [u8]) -> std::io::Result<usize> {
@@ -338,17 +340,78 @@ impl std::io::Read for ZeroReader {
         if self.left > self.cut {
             n = n.min(self.left - self.cut);
         }
+        if n == 0 && self.left == 0 && self.fail_at_end && !buf.is_empty() {
+            return Err(std::io::Error::new(std::io::ErrorKind::Other, "verif-hard-error-after-the-mark"));
+        }
         buf[..n as usize].fill(0);
         self.left -= n;
         Ok(n as usize)
     }
 }
 
+/// A reader that delivers more than MAX bytes and THEN reports a hard I/O error: the error is
+/// returned as an I/O error and no hash or generator error is produced (the helper may not stop
+/// listening to the reader once the data is too large anyway).
+pub fn case_hugestream_error(va: &dyn VariantApi) -> Result<(), String> {
+    let v = va.v();
+    let mut rd = ZeroReader { left: MAX + 4096, cut: 0, fail_at_end: true };
+    let r = catch(|| va.hash_stream(&mut rd)).map_err(|p| format!("{}: hash_stream_for over {} bytes + error panicked: {}", v.name, MAX + 4096, p))?;
+    match r {
+        None => Ok(()),
+        Some(Err(StreamErr::Io(e))) if e.kind() == std::io::ErrorKind::Other && e.to_string().contains("verif-hard-error-after-the-mark") => Ok(()),
+        Some(other) => Err(format!(
+            "{}: the reader delivered {} bytes and then reported a hard I/O error, but hash_stream_for returned {}",
+            v.name,
+            MAX + 4096,
+            match other {
+                Ok(h) => format!("the hash {}", h.display()),
+                Err(StreamErr::Gen(g)) => format!("GeneratorError({:?})", g),
+                Err(StreamErr::Io(e)) => format!("another I/O error {:?}", e),
+            }
+        )),
+    }
+}
+
+/// The file helper on a (sparse) regular file of MAX + extra bytes: too large exactly when extra > 0.
+pub fn case_hugefile(va: &dyn VariantApi, extra: u64) -> Result<(), String> {
+    let v = va.v();
+    let dir = std::env::var("VERIF_SCRATCH").unwrap_or_else(|_| "/verif/build/tmp".into());
+    std::fs::create_dir_all(&dir).map_err(|e| format!("scratch dir: {}", e))?;
+    let path = std::path::Path::new(&dir).join(format!("c11-sparse-{}-{}-{}.bin", std::process::id(), v.name, extra));
+    let made = std::fs::File::create(&path).and_then(|f| f.set_len(MAX + extra));
+    if let Err(e) = made {
+        let _ = std::fs::remove_file(&path);
+        return Err(format!("cannot create the sparse scratch file: {}", e));
+    }
+    let r = catch(|| va.hash_file(&path));
+    let _ = std::fs::remove_file(&path);
+    let r = r.map_err(|p| format!("{}: hash_file_for on a file of {} bytes panicked: {}", v.name, MAX + extra, p))?;
+    let Some(r) = r else { return Ok(()) };
+    if let Err(StreamErr::Io(e)) = &r {
+        return Err(format!("{}: hash_file_for on a sparse file of {} bytes returned the I/O error {:?}", v.name, MAX + extra, e));
+    }
+    if matches!(r, Err(StreamErr::Gen(GErr::TooLarge))) != (extra > 0) {
+        return Err(format!(
+            "{}: hash_file_for on a file of {} bytes (MAX + {}) returned {}; too-large is {}",
+            v.name,
+            MAX + extra,
+            extra,
+            match r {
+                Ok(h) => h.display(),
+                Err(StreamErr::Gen(g)) => format!("{:?}", g),
+                Err(StreamErr::Io(e)) => format!("{:?}", e.kind()),
+            },
+            if extra > 0 { "expected" } else { "not expected" }
+        ));
+    }
+    Ok(())
+}
+
 /// The stream helper over MAX + extra bytes, with a read boundary exactly at MAX: too large
 /// exactly when extra > 0 (the helper may not stop reading at the mark and call it a day).
 pub fn case_hugestream(va: &dyn VariantApi, extra: u64) -> Result<(), String> {
     let v = va.v();
-    let mut rd = ZeroReader { left: MAX + extra, cut: extra };
+    let mut rd = ZeroReader { left: MAX + extra, cut: extra, fail_at_end: false };
     let r = catch(|| va.hash_stream(&mut rd)).map_err(|p| format!("{}: hash_stream_for over {} bytes panicked: {}", v.name, MAX + extra, p))?;
     let Some(r) = r else { return Ok(()) };
     let too_large = matches!(r, Err(StreamErr::Gen(GErr::TooLarge)));
@@ -409,8 +472,12 @@ pub const HUGE: usize = (1usize << 32) + 4096;
 
 fn run_hugeslice(ctx: &Ctx) -> CheckResult {
     let quick = ctx.tier == crate::ctx::Tier::Quick;
-    if quick && ctx.config != "default" {
-        ctx.skipped("hugeslice: quick tier runs it in the default configuration only");
+    // quick: everything in `default`; in `default@dbg` (overflow checks, debug assertions) only the
+    // cheap injected-state jobs and ONE full pass: the stream helper over 2^32 + 4096 bytes (a
+    // wrapper-local 32-bit counter is out of reach of injected generator states)
+    let dbg_only = quick && ctx.config == "default@dbg";
+    if quick && ctx.config != "default" && !dbg_only {
+        ctx.skipped("hugeslice: quick tier runs it in the configurations default and default@dbg only");
         return Ok(());
     }
     let big = vec![0u8; HUGE];
@@ -426,7 +493,7 @@ fn run_hugeslice(ctx: &Ctx) -> CheckResult {
         }
         if quick {
             // one fresh generator per run (a full 4 GiB pass), rotating over variants and lengths
-            if i == (ctx.seed % vs.len() as u64) as usize {
+            if i == (ctx.seed % vs.len() as u64) as usize && !dbg_only {
                 jobs.push((i, [3usize, 0, 10][(ctx.seed % 3) as usize], lens[(ctx.seed % 5) as usize], None));
             }
         } else {
@@ -440,16 +507,19 @@ fn run_hugeslice(ctx: &Ctx) -> CheckResult {
     // stream jobs run concurrently with the slice jobs: (variant, extra bytes beyond MAX)
     let streams: Vec<(usize, u64)> = if !(ctx.api.caps().easy && ctx.api.caps().std) {
         vec![]
+    } else if dbg_only {
+        // beyond 2^32 bytes, not only beyond MAX
+        vec![(((ctx.seed + 3) % vs.len() as u64) as usize, (1u64 << 32) + 4096 - MAX)]
     } else if quick {
         vec![(((ctx.seed + 1) % vs.len() as u64) as usize, 1)]
     } else {
-        (0..vs.len()).flat_map(|i| [(i, 1u64), (i, 0), (i, 1 << 20)]).collect()
+        (0..vs.len()).flat_map(|i| [(i, 1u64), (i, 0), (i, 1 << 20), (i, (1u64 << 32) + 4096 - MAX)]).collect()
     };
     for &(i, extra) in &streams {
         jobs.push((i, usize::MAX, extra as usize, None));
     }
     // one-call helper jobs: (variant, usize::MAX - 1, extra, _)
-    if ctx.api.caps().easy {
+    if ctx.api.caps().easy && !dbg_only {
         if quick {
             let i = ((ctx.seed + 2) % vs.len() as u64) as usize;
             jobs.push((i, usize::MAX - 1, 0, None));
@@ -461,8 +531,25 @@ fn run_hugeslice(ctx: &Ctx) -> CheckResult {
             }
         }
     }
+    // stream-then-error (pre = usize::MAX - 2) and sparse-file (pre = usize::MAX - 3) jobs
+    if ctx.api.caps().easy && ctx.api.caps().std && !dbg_only {
+        if quick {
+            jobs.push((((ctx.seed + 4) % vs.len() as u64) as usize, usize::MAX - 2, 0, None));
+            jobs.push((((ctx.seed + 5) % vs.len() as u64) as usize, usize::MAX - 3, 1000, None));
+        } else {
+            for i in 0..vs.len() {
+                jobs.push((i, usize::MAX - 2, 0, None));
+                jobs.push((i, usize::MAX - 3, 1, None));
+                jobs.push((i, usize::MAX - 3, 0, None));
+            }
+        }
+    }
     let res = par_map(ctx.threads, &jobs, |&(i, pre, len, room)| {
-        if pre == usize::MAX {
+        if pre == usize::MAX - 2 {
+            case_hugestream_error(vs[i])
+        } else if pre == usize::MAX - 3 {
+            case_hugefile(vs[i], len as u64)
+        } else if pre == usize::MAX {
             case_hugestream(vs[i], len as u64)
         } else if pre == usize::MAX - 1 {
             case_hugebuf(vs[i], &big, len, room.is_some())
@@ -476,6 +563,12 @@ fn run_hugeslice(ctx: &Ctx) -> CheckResult {
         if let Err(m) = r {
             if pre == usize::MAX {
                 return Err(ctx.violation("hugestream", m, json!({"variant": vs[i].v().name, "extra": len})));
+            }
+            if pre == usize::MAX - 2 {
+                return Err(ctx.violation("hugestream-error", m, json!({"variant": vs[i].v().name})));
+            }
+            if pre == usize::MAX - 3 {
+                return Err(ctx.violation("hugefile", m, json!({"variant": vs[i].v().name, "extra": len})));
             }
             if pre == usize::MAX - 1 {
                 return Err(ctx.violation("hugebuf", m, json!({"variant": vs[i].v().name, "extra": len})));
@@ -511,6 +604,8 @@ pub fn replay(ctx: &Ctx, check: &str, case: &Value) -> Result<(), String> {
             case_cross(va, &c, &st)
         }
         "hugebuf" => case_hugebuf(va, &vec![0u8; HUGE], case.get("extra").and_then(|x| x.as_u64()).unwrap_or(0) as usize, true),
+        "hugestream-error" => case_hugestream_error(va),
+        "hugefile" => case_hugefile(va, case.get("extra").and_then(|x| x.as_u64()).unwrap_or(1)),
         "hugestream" => case_hugestream(va, case.get("extra").and_then(|x| x.as_u64()).unwrap_or(1)),
         "hugeslice" => {
             let pre = case.get("pre").and_then(|x| x.as_u64()).unwrap_or(0) as usize;
